@@ -5,6 +5,7 @@
 //   CFG <slot> <budget> <mode> <state> <flags>   configure stream slot (sink fault as an explicit op)
 //   OP <name> <seed> <p0> <p1> <slot> <fault> <a> <b> [value-class]
 //        fault: none | alloc k | allocfrom k | alloceach | sink budget mode | sinkeach | cold k persistent
+//   REP <name> <seed> <n> <vary>                 the same op n times, seed + i*vary (endurance, fault-free)
 //   END
 #include "c20_rt.hpp"
 
@@ -476,6 +477,37 @@ int main(int argc, char** argv) {
       say("B %ld %ld CFG\n", g_run, g_opidx);
       reset_slot(((slot % vrt::kStreamSlots) + vrt::kStreamSlots) % vrt::kStreamSlots, budget, mode % 3, state % 8, flags);
       say("R %ld %ld ok n=0 fired=0 h0=0 len=0 nf=0\n", g_run, g_opidx);
+      ++g_opidx;
+    } else if (cmd == "REP") {
+      // endurance: the same call repeated many times in this process (same seed, or a new seed every time),
+      // fault-free: exposes counters that wrap, caches that fill up, buffers that grow
+      std::string name;
+      unsigned long long seed = 0, vary = 0;
+      long n = 0;
+      is >> name >> seed >> n >> vary;
+      auto it = byname.find(name);
+      if (it == byname.end()) {
+        say("U %ld %ld %s\n", g_run, g_opidx, name.c_str());
+      } else {
+        say("B %ld %ld %s\n", g_run, g_opidx, name.c_str());
+        g_phase = "rep";
+        vrt::g_armed = false;
+        vrt::Ctx c;
+        Outcome last;
+        for (long i = 0; i < n; ++i) {
+          Scratch s;
+          last = run_once(*it->second, c, seed + static_cast<unsigned long long>(i) * vary, -1, -1, &s.os);
+          ++st.execs;
+          if (last.cls == 2 || last.invalid_enum) {
+            char fd[48];
+            std::snprintf(fd, sizeof fd, "rep:%ld", i);
+            check_outcome(*it->second, last, false, fd, st);
+            break;
+          }
+        }
+        g_phase = "-";
+        say("R %ld %ld ok n=0 fired=0 h0=%016llx len=%ld nf=0\n", g_run, g_opidx, static_cast<unsigned long long>(last.h), last.len);
+      }
       ++g_opidx;
     } else if (cmd == "OP") {
       std::string name, fault;
